@@ -12,6 +12,9 @@ R05.3 every k is tried: the candidate starts at the constant 1 and its only othe
 R05.4 all pairs: the test is `X.iter().all(|a| X.iter().all(|b| same(a,b) || a.is_disjoint(b)))` over one collection X.
 R05.5 a failed non-terminal fails the grammar: in calculate_k_tuples / calculate_lookahead_dfas the Result of decidable is
       propagated (and_then / `?`), never replaced by a default (unwrap_or .. / ok() / is_ok()).
+R05.7 the compared set of every production is FIRST_k(rhs) . FOLLOW_k(lhs): the k_concat with the follow set is executed on
+      every path of the code that builds the compared collection (a first set that is not k-complete must be extended whether or
+      not it contains epsilon: `a` is shorter than k = 2).
 R05.6 = all C06 rules re-evaluated (the sets the decision compares come from the per-k caches and fixpoint loops).
 """
 from .. import cfg
@@ -231,6 +234,43 @@ def check(ctx):
                               "%s replaces a failed %s by a default (%s): a grammar with an undecidable non-terminal is accepted"
                               % (short(b.path), short(c.path), swallowed), where(b, c.line))
     ctx.require_floor("R05.5", "decision_call_sites", n, 2)
+    follow_concatenated_for_every_production(ctx, facts)
     # R05.6 = C06's rules (added after seed C05-a): the decision compares FIRST_k . FOLLOW_k sets taken from the per-k caches
     from . import c06
     c06.check(ctx)
+
+
+
+def follow_concatenated_for_every_production(ctx, facts):
+    """R05.7 (added after seed C05-b)"""
+    KC = "parol::analysis::k_tuples::KTuples::k_concat"
+    root = facts.body(KD + "decidable")
+    n = 0
+    for fb in facts.family(root):
+        for c in fb.calls():
+            if c.path != KC:
+                continue
+            n += 1
+            if fb is root:
+                extra = []
+                for a, k, truth in guards_on_all_paths(fb, c.bb):
+                    if k and (k[0] == "qm" or (k[0] == "disc-call" and "std::iter::Iterator::next" in k[1].names())):
+                        continue
+                    # conditions shared with the pairwise test are preconditions of the whole round
+                    alls = [x for x in fb.calls() if (x.path or "").split("::")[-1] == "all"]
+                    if alls and all(cfg.Dom(fb).dominates(a, x.bb) for x in alls):
+                        continue
+                    extra.append(a)
+                ok = not extra
+                how = "branch blocks %s" % extra
+            else:
+                rets = fb.return_blocks()
+                skip = [r for r in rets if r in cfg.reachable_from(fb, 0, avoid_blocks=[c.bb])]
+                ok = not skip
+                how = "a path through the closure returns without it"
+            ctx.check(ok, "R05.7", "decidable|follow-concatenated-on-every-path|%d" % n,
+                      "every production's first set is concatenated with the follow set of its non-terminal",
+                      "decidable concatenates FOLLOW_k only under a condition (%s): a first set that is shorter than k but does not "
+                      "contain epsilon keeps its short tuples, two productions whose look-ahead differs only behind them are "
+                      "compared on prefixes (a conflict is missed or a smaller k reported)" % how, where(fb, c.line))
+    ctx.require_floor("R05.7", "follow_concat_sites", n, 1)
